@@ -8,6 +8,7 @@ CONSTANTS
  DevPruneOnBase = FALSE
  DevTimeMinOnly = FALSE
  DevLimitPerSegment = FALSE
+ DevMaxOffsetAcrossPartitions = FALSE
 INIT TInit
 NEXT TNext
 POSTCONDITION Reached
